@@ -89,6 +89,15 @@ func (w *world) id(i int) string {
 	return "unknown-id"
 }
 
+// idOrEmpty is id for the calls that take a bare id: the last index stands for the empty id while fewer modes are known
+// (a fresh model's placeholder active mode has the empty id too, which no mode has).
+func (w *world) idOrEmpty(i int) string {
+	if i == 4 && i >= len(w.ids) {
+		return ""
+	}
+	return w.id(i)
+}
+
 // apply runs one step and checks the step-local clauses; it returns a short outcome string.
 func (w *world) apply(s step) (string, error) {
 	modesBefore := map[string]bool{}
@@ -176,13 +185,13 @@ func (w *world) apply(s step) (string, error) {
 			}
 		}
 	case "SetActiveMode":
-		id := w.id(s.Mode)
+		id := w.idOrEmpty(s.Mode)
 		err = w.m.SetActiveMode(&traits.ElectricMode{Id: id, Title: "set-active"})
 		if err == nil {
 			w.activeChanged = true
 		}
 	case "ChangeActiveMode", "ChangeToNormalMode":
-		id := w.id(s.Mode)
+		id := w.idOrEmpty(s.Mode)
 		c0 := w.clk.peek()
 		var res *traits.ElectricMode
 		if opNames[s.Op] == "ChangeToNormalMode" {
